@@ -213,7 +213,24 @@ def utf8Valid : List Nat → Bool
     else false
 
 /-- `read_f16_as_f32` value conversion on bit patterns (exponent ≠ 31): exact, done with
-integers. Zero → signed zero; subnormal `m·2^-24` is normalised; normal → rebias by 112. -/
+integers. Zero → signed zero; subnormal `m·2^-24` is normalised; normal → rebias by 112.
+
+Rust (`crates/jxl-bitstream/src/bitstream.rs`, `Bitstream::read_f16_as_f32`), branch by branch:
+* `v & 0x7fff == 0` → `f32::from_bits((v & 0x8000) << 16)`: here `e == 0 && m == 0 → neg`.
+* `exponent == 0x1f` → `InvalidFloat`: excluded by `f16Valid` (`parseTy .f16`), not this function.
+* `exponent == 0` (subnormal, `mantissa` = 1..1023): the Rust works in `f32` arithmetic,
+  `val = (1.0 / 16384.0) * (mantissa as f32 / 1024.0)`, then `-val` if the sign bit is set.
+  Every step is exact in binary32 (24-bit significand, normal range down to 2^-126):
+  `mantissa as f32` is an integer < 2^24; `/ 1024.0` divides by 2^10 (only the exponent changes,
+  `m·2^-10 ≥ 2^-10` is normal); `1.0 / 16384.0 = 2^-14` is a power of two; the product
+  `2^-14 · m·2^-10 = m·2^-24` keeps the ≤ 10-bit significand of `m` and lies in
+  `[2^-24, 2^-14)`, far above 2^-126, so it is a normal binary32 number and no rounding occurs;
+  negation flips the sign bit. The binary32 pattern of `m·2^-24` with `h = ⌊log2 m⌋` is biased
+  exponent `h − 24 + 127 = h + 103` and fraction `m·2^(23−h) − 2^23` — the line below.
+* otherwise (normal): `(mantissa << 13) | ((exponent + 112) << 23) | neg_bit`; the three fields
+  do not overlap, so `|` is `+`.
+That the result denotes the same real number as the binary16 pattern is
+`C14_f16_value_exact` (`f32Scaled`/`f16Scaled` below). -/
 def f16ToF32Bits (v : Nat) : Nat :=
   let sign := (v / 0x8000) % 2
   let e := (v / 1024) % 32
@@ -237,6 +254,17 @@ def f16Scaled (v : Nat) : Int :=
   let e := (v / 1024) % 32
   let m := v % 1024
   let mag : Int := if e == 0 then Int.ofNat m else Int.ofNat ((1024 + m) * 2 ^ (e - 1))
+  if sign == 1 then -mag else mag
+
+/-- finite f32 pattern (biased exponent ≠ 255) as an integer multiple of 2^-149, by the IEEE-754
+definition of binary32: sign bit, biased exponent `e` (8 bits), fraction `m` (23 bits);
+`e = 0` (zero / subnormal) is `m·2^-149`, otherwise `(1 + m·2^-23)·2^(e-127) =
+(2^23 + m)·2^(e-1)·2^-149` -/
+def f32Scaled (bits : Nat) : Int :=
+  let sign := (bits / 0x80000000) % 2
+  let e := (bits / 0x800000) % 256
+  let m := bits % 0x800000
+  let mag : Int := if e == 0 then Int.ofNat m else Int.ofNat ((0x800000 + m) * 2 ^ (e - 1))
   if sign == 1 then -mag else mag
 
 /-- The fixed list of helper functions callable from expressions. -/
